@@ -41,6 +41,9 @@ static Fields gen(Tape &t) {
     else if (o.kind == 'T') f.kv.emplace_back("op." + std::to_string(k), "T:" + std::to_string(o.i) + ":" + std::to_string(o.arg));
     else f.kv.emplace_back("op." + std::to_string(k), o.str());
   }
+  // in a quarter of the transcripts the k-th allocation of *every* step fails once, identically for both APIs: error
+  // handling paths must agree between the character types as well
+  f.seti("fault", t.chance(3, 4) ? 0 : t.range(1, 8));
   return f;
 }
 static std::vector<Op> decode(const Fields &f) {
@@ -67,7 +70,7 @@ static std::vector<Op> decode(const Fields &f) {
   return ops;
 }
 
-template <class A> static std::vector<std::string> transcript(const std::vector<Op> &ops, std::map<std::string, int> *groups) {
+template <class A> static std::vector<std::string> transcript(const std::vector<Op> &ops, std::map<std::string, int> *groups, int fault) {
   using Ch = typename A::Ch;
   std::vector<std::string> tr;
   World<A> w;
@@ -78,8 +81,12 @@ template <class A> static std::vector<std::string> transcript(const std::vector<
     Snap s = snapshot<A>(w.at(k).uri);
     return std::string(ok ? "text='" : "notext'") + esc(t) + "' narrow=" + (nok && s.narrowOk ? "1" : "0") + " wf='" + wf + "' " + s.describe() + " owner=" + (s.owner ? "1" : "0");
   };
+  LibcLedger &L = libc_ledger();
+  struct PlanOff { LibcLedger &L; ~PlanOff() { L.fail_at = 0; } } planOff{L};
   for (auto &op : ops) {
     std::string rec = std::string(1, op.kind) + ": ";
+    L.fail_at = 0;
+    if (fault > 0) { L.req = 0; L.fail_at = (uint64_t)fault; }
     int n = w.size();
     auto ix = [&](int v) { return n ? ((v % n) + n) % n : 0; };
     switch (op.kind) {
@@ -150,6 +157,7 @@ template <class A> static std::vector<std::string> transcript(const std::vector<
         int cnt = -3;
         bool p2s = op.arg & 1, s2p = op.arg & 2, nb = op.arg & 4;
         int rc = A::DissectQueryMallocEx(&ql, &cnt, in.get(), in.get() + s.size(), p2s, (UriBreakConversion)((op.arg >> 3) & 3));
+        if (rc != 0) ql = nullptr;  // after a failure the output pointer is not meaningful (the library has released the list)
         rec += "rc=" + std::to_string(rc) + " count=" + std::to_string(cnt) + " [";
         for (auto *q = ql; q; q = q->next) {
           size_t kl = 0; while (q->key[kl]) kl++;
@@ -197,6 +205,8 @@ template <class A> static std::vector<std::string> transcript(const std::vector<
       }
       default: break;
     }
+    if (fault > 0 && L.req >= (uint64_t)fault) { rec += " [allocation " + std::to_string(fault) + " failed]"; (*groups)["steps_with_failed_allocation"]++; }
+    L.fail_at = 0;
     tr.push_back(rec);
     stats().sub_evaluations++;
   }
@@ -207,8 +217,9 @@ static Verdict check(const Fields &f) {
   std::vector<Op> ops = decode(f);
   for (auto &op : ops) if (op.text.find('\0') != std::string::npos) return Verdict::discard();
   std::map<std::string, int> ga, gw;
-  std::vector<std::string> a = transcript<Api<char>>(ops, &ga);
-  std::vector<std::string> b = transcript<Api<wchar_t>>(ops, &gw);
+  int fault = (int)f.geti("fault");
+  std::vector<std::string> a = transcript<Api<char>>(ops, &ga, fault);
+  std::vector<std::string> b = transcript<Api<wchar_t>>(ops, &gw, fault);
   if (a.size() != b.size()) return Verdict::fail("transcripts have different lengths");
   size_t longest = 0;
   for (size_t k = 0; k < a.size(); k++) {
